@@ -18,6 +18,12 @@ CLAIMED = {
   text="Decides the structural content of the property for all schedules and call histories at once: (GLOB) no function but the package initialiser writes package-level state, no goroutines/channels/sync/time/rand/os/map-iteration, unsafe only at the reflect.NewAt site; (RECV) every Marshal/MarshalSize/MarshalTo/DestinationSSRC/String/Header/Len/Validate/CNAME/Range/PacketList/... method has an empty write set w.r.t. its receiver, with ExtendedReport.Marshal verified to write only XRHeader.{BlockType,TypeSpecific,BlockLength} through setupBlockHeader; (INPUT) all 24 decode entry points have an empty write set w.r.t. their input slice; (FRESH) Marshal results are fresh allocations (RawPacket: the receiver). A positive-control fixture must make every rule fire on every run. Not a race-detector run: nothing is executed.",
   note="Trusted: go/ssa, VTA call graph, the effect model of builtins and of external functions (table in checker/effects). Assumes callers do not mutate a packet concurrently. 'Identical results on repetition' is covered only as absence of writes and of nondeterministic sources.",
   design="DESIGN.md §2 C18"),
+ "C11": dict(
+  level="other",
+  technique="static analysis: constant-propagation evaluation of Validate/CNAME/Marshal/Unmarshal over all member dynamic types and SDES item type codes, plus SSA def-use/dominance rules",
+  text="Decides structural clauses that are necessary for the compound rules, for every dynamic type of the first and of later members and every SDES item type 0..8: which first-member types pass (FIRST), the per-member outcome of the scan incl. which member types let the scan continue, that success is controlled by a monotone flag set only under item.Type==SDESCNAME, that the scan loop carries no other state (SCAN), that Marshal produces bytes only after Validate()==nil and Unmarshal returns nil only as Validate() of the list it just stored and loops until the datagram is empty (GATE), that CNAME() returns the Text of the item just compared equal to SDESCNAME from inside the scan (CNAME). It does not decide grammar equivalence for all sequences (that would be a runtime enumeration); a reader should take it as: the decision structure is the RFC one, not that every sequence was tried.",
+  note="Trusted: go/ssa, checker/pe evaluator. Not covered: CNAME()'s loop-carried err variable; DestinationSSRC/MarshalSize aggregation (C10/C05).",
+  design="DESIGN.md §2 C11"),
 }
 
 NA = {
